@@ -168,11 +168,11 @@ func oracleBranchMachine(c *Ctx) error {
 		return fmt.Errorf("branch --list marks %q as current, HEAD names %q", cur, post.HeadBr)
 	}
 	if len(names) > 0 {
-		// `rev-parse HEAD` (in any letter case) means the current branch: a branch that is itself named
-		// "HEAD" cannot be asked for by name, so it is left out of the query
+		// `rev-parse HEAD` means the current branch: a branch that is itself named "HEAD" cannot be asked for
+		// by name, so it is left out of the query (other letter cases, `head`, `Head`, are ordinary names)
 		var query []string
 		for _, n := range names {
-			if strings.ToLower(n) != "head" {
+			if n != "HEAD" {
 				query = append(query, n)
 			}
 		}
